@@ -407,3 +407,132 @@ impl RoutingTable {
         (self.dht_size_estimates_count, self.responders_samples_count, self.responders_subnets_sum)
     }
 }
+
+/// i-th of 20 insecure nodes on distinct public IPs; ids [0, b, 0..] with b = 0x10..0x1f (bucket
+/// 149 of the all-zero table id) for i < 16 and b = 0x08..0x0b (bucket 148) for the last four
+fn near_node(i: u8) -> Node {
+    let mut a = [0u8; 20];
+    a[1] = if i < 16 { 0x10 + i } else { 0x08 + (i - 16) };
+    Node::new(Id::from(a), SocketAddrV4::new([11, 0, i, 1].into(), 6881))
+}
+
+//@ ob: C11.O3b
+//@ tier: thorough
+//@ cap: 3000
+//@ mem: 28
+//@ standins: vcoll
+//@ desc: the cut at 20 with a secure node in a far bucket: a table of 21 nodes -- 20 insecure nodes in two near buckets and one node in bucket 159 that is BEP42-secure (the BEP42 vector 124.31.75.21 / 5fbfbf..01) or, symbolically, an insecure twin -- answers closest(t) with exactly 20 distinct entries ordered secure-first then XOR distance: the secure node is first although it is the farthest by XOR, the one entry left out is the farthest insecure node
+//@ bounds: 21 concrete nodes in buckets 148 / 149 / 159, far node secure or not (symbolic), target [0, tb, 0..] with symbolic tb; unwind 23
+//@ stubs: std::time::Instant::now -> symbolic whole-second clock
+//@ functions: RoutingTable::closest, ClosestNodes::add, Node::is_secure, Node::already_exists
+#[kani::proof]
+#[kani::stub(std::time::Instant::now, clock::now)]
+#[kani::unwind(23)]
+fn c11_o3b_closest_cut_at_twenty() {
+    clock::set(0);
+    let mut rt = RoutingTable::new(Id::from([0u8; 20]));
+    let mut b149: Vec<Node> = Vec::with_capacity(16);
+    let mut b148: Vec<Node> = Vec::with_capacity(4);
+    let mut i = 0u8;
+    while i < 20 {
+        if i < 16 { b149.push(near_node(i)) } else { b148.push(near_node(i)) }
+        i += 1;
+    }
+    let secure_far: bool = kani::any();
+    let mut far_id = [0u8; 20];
+    far_id[0] = 0x5f;
+    far_id[1] = 0xbf;
+    far_id[2] = if secure_far { 0xbf } else { 0x3f };
+    far_id[19] = 1;
+    let far = Node::new(Id::from(far_id), SocketAddrV4::new([124, 31, 75, 21].into(), 6881));
+    rt.buckets.insert(148, KBucket { nodes: b148 });
+    rt.buckets.insert(149, KBucket { nodes: b149 });
+    rt.buckets.insert(159, KBucket { nodes: vec![far.clone()] });
+    assert!(far.is_secure() == secure_far, "CUT harness premise: BEP42 vector is secure, its twin is not");
+    let mut tb = [0u8; 20];
+    tb[1] = kani::any();
+    let t = Id::from(tb);
+    let out = rt.closest(t);
+    assert!(out.len() == 20, "C11.O3 closest returns min(20, size) nodes");
+    let mut has_far = false;
+    let mut i = 0usize;
+    while i < 20 {
+        if i + 1 < 20 {
+            assert!(in_order(&out[i], &out[i + 1], &t), "C11.O3 closest ordered secure-first then XOR distance");
+            assert!(out[i].id() != out[i + 1].id(), "C11.O3 closest has no duplicates");
+        }
+        if same(&out[i], &far) {
+            has_far = true;
+        }
+        i += 1;
+    }
+    if secure_far {
+        assert!(same(&out[0], &far), "C11.O3 a secure node in a far bucket is returned first");
+    } else {
+        assert!(!has_far, "C11.O3 the farthest insecure node is the one left out");
+    }
+    // the one near node left out (when the far node is in) is not closer than the last returned
+    if secure_far {
+        let mut i = 0u8;
+        while i < 20 {
+            let n = near_node(i);
+            let mut inside = false;
+            let mut j = 0usize;
+            while j < 20 {
+                if out[j].id() == n.id() { inside = true; }
+                j += 1;
+            }
+            if !inside {
+                assert!(out[19].id().xor(&t) <= n.id().xor(&t), "C11.O3 closest returns exactly the first 20 of the order");
+            }
+            i += 1;
+        }
+    }
+    kani::cover!(secure_far);
+    kani::cover!(!secure_far && tb[1] == 0x1f);
+    std::mem::forget(out);
+    std::mem::forget(rt);
+}
+
+//@ ob: C12.O5
+//@ tier: quick
+//@ cap: 2400
+//@ standins: vcoll
+//@ also: C20
+//@ desc: full bucket at the table level, state built through the table's own add(): 20 distinct nodes added at time 0 fill one bucket; at a symbolic later time one more node of the same distance class is added: it is admitted iff the least recently seen entry is stale (> 900 s), then exactly that entry goes; in both cases the bucket holds 20, and size(), is_empty() and iteration over nodes() agree (20 entries)
+//@ bounds: 20 concrete nodes (ids [0x80, i, 0..], private IPs 10.0.1.i) added through RoutingTable::add at t = 0; newcomer concrete; 'now' symbolic <= 2000 s; unwind 23, RoutingTableIterator::next 163
+//@ stubs: std::time::Instant::now -> symbolic whole-second clock
+//@ functions: RoutingTable::{add,size,is_empty,nodes}, KBucket::add, Node::is_stale, RoutingTableIterator::next
+//@ unwindset: RoutingTableIterator = 163
+#[kani::proof]
+#[kani::stub(std::time::Instant::now, clock::now)]
+#[kani::unwind(23)]
+fn c12_o5_table_full_bucket() {
+    clock::set(0);
+    let mut rt = RoutingTable::new(Id::from([0u8; 20]));
+    let mut i = 0u8;
+    while i < 20 {
+        let added = rt.add(node_160(i + 1, 0, [10, 0, 1, i]));
+        assert!(added, "C12.O5 twenty distinct nodes fit one bucket");
+        i += 1;
+    }
+    assert!(rt.size() == 20, "C12.O3 size agrees with iteration");
+    let now: u64 = kani::any();
+    kani::assume(now <= 2000);
+    clock::set(now);
+    let r = rt.add(node_160(99, 0, [10, 0, 2, 1]));
+    assert!(r == (now > 900), "C12.O2 full bucket admits iff head is stale (> 15 min)");
+    let n = rt.nodes().count();
+    assert!(n == 20, "C12.O2 bucket never exceeds 20");
+    assert!(rt.size() == n, "C12.O3 size agrees with iteration");
+    assert!(!rt.is_empty(), "C12.O3 is_empty agrees with size");
+    let b = rt.buckets.get(&160).unwrap();
+    if r {
+        assert!(b.nodes[0].id().as_bytes()[1] == 2 && b.nodes[19].id().as_bytes()[1] == 99, "C12.O2 only the head is evicted");
+    } else {
+        assert!(b.nodes[0].id().as_bytes()[1] == 1 && b.nodes[19].id().as_bytes()[1] == 20, "C12.O2 fresh bucket unchanged");
+    }
+    kani::cover!(r);
+    kani::cover!(!r);
+    std::mem::forget(rt);
+}
